@@ -306,3 +306,21 @@ UNITS.append(Unit('out.fd.rotate_output.c13', ('@_ZN4CDNS6WriterIiE13rotate_outp
 for _u in UNITS:
     if isinstance(getattr(_u, 'setup', None), str) and 'NAME_INV_OBJ' in _u.setup:
         _u.setup = _u.setup.replace('NAME_INV_OBJ', NAME_INV.replace('$this->', 'obj.'))
+
+# ---------------------------------------------------------------- constructors of the compressing writers: suffix handed to the inner writer, stream opened (C14)
+for _tag, _cls, _pre, _init, _lit, _opq in (
+        ('gzip', 'GzipCborOutputWriter', '_ZN4CDNS20GzipCborOutputWriterC1', 'lib_deflateInit2_', '.gz', OPQ),
+        ('xz', 'XzCborOutputWriter', '_ZN4CDNS18XzCborOutputWriterC1', 'lib_lzma_easy_encoder', '.xz', XOPQ)):
+    for _k, _suf, _argt, _obs in (('string', 'INSt7__cxx1112basic_stringIcSt11char_traitsIcESaIcEEEEERKT_', 'cstring', 'g_mk_name == $1->id'),
+                                  ('fd', 'IiEERKT_', 'int', 'g_mk_fd == *$1')):
+        UNITS.append(Unit('out.%s.ctor.%s' % (_tag, _k), ('@' + _pre + _suf, None), contract="""
+__CPROVER_requires(__CPROVER_r_ok($1, sizeof(*$1)) && g_exc == 0 && !g_z_open && g_mk_count == 0)
+__CPROVER_assigns(g_z_open, g_z_finished, g_z_in, g_z_out, g_fwd, g_mk_count, g_mk_name, g_mk_fd, __CPROVER_object_whole(g_mk_e), g_exc)
+__CPROVER_ensures(g_exc == 0 || g_exc == EXC_CborOutputException)
+__CPROVER_ensures(g_mk_count == 1 && %s && g_mk_e[0] == '%s' && g_mk_e[1] == '%s' && g_mk_e[2] == '%s' && g_mk_e[3] == 0)
+__CPROVER_ensures(g_exc == 0 ==> g_z_open)
+""" % ((_obs,) + tuple(_lit)), prelude=P, opaque=_opq, inline=[(_cls + '::open', None)], stubs=[_init, 'make_unique__\\w+', 'uptr_assign', 'cstring__\\w+'],
+                          auto_inline=[r'BaseCborOutputWriter__ctor__\w+'],
+                          setup='  static %s a_out;\n  g_mk_count = 0;\n  __CPROVER_assume(!g_z_open);\n' % _argt, args=['&a_out'], props=['C14'], timeout=300,
+                          post='  if (g_exc != 0) { CANARY("initialisation failure reachable"); }',
+                          note='the compressing writer creates exactly one inner writer, for the given name / descriptor and with the suffix "%s", then opens the compressed stream (a failed initialisation raises)' % _lit))
